@@ -54,30 +54,8 @@ theorem C07_rotate_general (r : RollerCfg) (file : Path) (d : Disk) (x : Bytes)
         match slot r d (r.base + j - 1) with
         | some y => some y
         | none => if j = r.count - 1 then slot r d (r.base + j) else none) ∧
-      (∀ i, i < r.base ∨ r.base + r.count ≤ i → slot r d' i = slot r d i) := by
-  obtain ⟨d', hroll, hq⟩ := fixedWindowRoll_ok r file d x hc hfa hx
-  refine ⟨d', ?_, ?_, ?_, ?_, ?_⟩
-  · rw [rollU32_guarded _ _ _ _ hg, hroll]
-  · simp [slot, hq]
-  · rw [hq]; simp [(hfa r.base).symm]
-  · intro j h1 h2
-    have hne : r.nameOf (r.base + j) ≠ r.nameOf r.base := fun e => by have := hinj _ _ e; omega
-    show d'.get? (r.nameOf (r.base + j)) = _
-    rw [hq, if_neg hne, if_neg (hfa _)]
-    have := (slot_applyShifts hinj (r.count - 1) d).2 j h1 (by omega)
-    simp only [slot] at this ⊢
-    rw [this]
-    cases d.get? (r.nameOf (r.base + j - 1)) with
-    | some y => rfl
-    | none =>
-      by_cases hj : j = r.count - 1
-      · subst hj; simp
-      · simp [hj]
-  · intro i hi
-    have hne : r.nameOf i ≠ r.nameOf r.base := fun e => by have := hinj _ _ e; omega
-    show d'.get? (r.nameOf i) = _
-    rw [hq, if_neg hne, if_neg (hfa _)]
-    exact slot_applyShifts_other hinj _ d i (by omega)
+      (∀ i, i < r.base ∨ r.base + r.count ≤ i → slot r d' i = slot r d i) :=
+  rollU32_general r file d x hg hc hinj hfa hx
 
 /-- Dense window (`k ≤ c` archives at `b … b+k-1`, nothing above inside the window): after the
 roll slot `b` holds the rolled content, slot `b+j+1` holds what slot `b+j` held (for `j+1 < c`),
@@ -114,27 +92,8 @@ theorem C07_roll_window (r : RollerCfg) (file : Path) (d : Disk) (x : Bytes) (ws
     (hg : r.base + r.count < U32_MOD) (hc : r.count ≠ 0)
     (hinj : NamesInj r) (hfa : FileApart r file) (hw : WindowIs r d ws) :
     WindowIs r (rollU32 r file (fun _ => false) (d.set file x)).2 ((r.enc x :: ws).take r.count) ∧
-      (rollU32 r file (fun _ => false) (d.set file x)).2.get? file = none := by
-  have hx : (d.set file x).get? file = some x := Disk.get?_set_same _ _ _
-  have hsl : ∀ i, slot r (d.set file x) i = slot r d i := fun i =>
-    Disk.get?_set_ne _ _ (hfa i)
-  obtain ⟨d', h0, h1, h2, h3, _⟩ := C07_rotate_general r file _ x hg hc hinj hfa hx
-  rw [h0]
-  refine ⟨fun j hj => ?_, h2⟩
-  rw [List.getElem?_take, if_pos hj]
-  cases j with
-  | zero => simpa using h1
-  | succ j =>
-    rw [h3 (j + 1) (by omega) hj, hsl, hsl]
-    rw [show r.base + (j + 1) - 1 = r.base + j from by omega, hw j (by omega), List.getElem?_cons_succ]
-    cases hj' : ws[j]? with
-    | some y => rfl
-    | none =>
-      have hlen : ws.length ≤ j := by simpa using hj'
-      have : ws[j + 1]? = none := by simp; omega
-      by_cases hlast : j + 1 = r.count - 1
-      · simp only [hlast, if_true]; rw [← hlast, hw (j + 1) hj, this]
-      · simp [hlast]
+      (rollU32 r file (fun _ => false) (d.set file x)).2.get? file = none :=
+  rollU32_window r file d x ws hg hc hinj hfa hw
 
 /-- The statement's main clause, for all bases, counts and numbers of rolls: starting from a
 window that holds `ws` (for the empty window `ws = []`), after rolling `x₁ … xₙ` the window holds
